@@ -7,6 +7,8 @@ transforms are linear this yields the complete synthesis matrix and the complete
 they are compared entry by entry with (i) reference spherical harmonics evaluated at the grid's own
 nodes, (ii) the Kronecker delta wherever quadrature theory says the pair is resolved, (iii) the
 integral identity and (iv) exact zeros outside the triangular truncation.
+
+Extensions after the seeded-breakage rounds (DESIGN.md 8.5): Call histories: every sequence of <= 2 (thorough 3) calls over 13 Grid operations is executed on one shared Grid object and every call must be bit-identical to the same call made first on a fresh grid (the Grid caches its matrices, weights and eigenvalues), with the round-trip and integral identities evaluated in every reached state.  Grid.mask itself is compared with an independent reference mask of the triangular truncation.
 """
 import numpy as np
 
